@@ -244,18 +244,19 @@ theorem JoinSpec.consP {m : Mesh} {a b new common : Id} {F : Mesh} (S : JoinSpec
     · exact Or.inl ⟨by rw [y1], by rw [y2]⟩
     · exact Or.inr ⟨by rw [y1], by rw [y2]⟩
 
-theorem join_consP (m : Mesh) (a b : Id) (mapper : List (Id × Id)) (hC : ConsP m) (hab : a ≠ b)
+theorem joinFinal_consP (m : Mesh) (a b : Id) (hC : ConsP m) (hab : a ≠ b)
     (ha : (m.vertex? a).isSome = true) (hb : (m.vertex? b).isSome = true)
     (hj : JoinedP m a b) (hla : ¬ JoinedP m a a) (hlb : ¬ JoinedP m b b)
     (hadj : ∀ q ∈ m.cells, a ∈ q.2.verts → b ∈ q.2.verts →
       3 ≤ q.2.verts.length ∧ ((a, b) ∈ cyclicPairs q.2.verts ∨ (b, a) ∈ cyclicPairs q.2.verts)) :
-    ∃ F, m.joinTwoVertices (a, b) mapper =
-        .ok (F, (mapper.filter fun p => p.1 != a && p.1 != b) ++ [(a, m.unusedId), (b, m.unusedId)]) ∧
-      ConsP F ∧
-      F.vertices.map (·.1) = (m.vertices.map (·.1)).filter (fun k => k != a && k != b) ++ [m.unusedId] ∧
-      F.cells.map (·.1) = m.cells.map (·.1) ∧
-      (∀ q ∈ F.edges, ∃ q0 ∈ m.edges, q.1 = q0.1 ∧ q.2.v1 = tau a b m.unusedId q0.2.v1 ∧
-        q.2.v2 = tau a b m.unusedId q0.2.v2) := by
+    ∃ v0 v1 common, m.vertex? a = some v0 ∧ m.vertex? b = some v1 ∧
+      (listInter v0.ownEdges v1.ownEdges).head? = some common ∧
+      ConsP (joinFinal m a b m.unusedId common v0 v1) ∧
+      (joinFinal m a b m.unusedId common v0 v1).vertices.map (·.1) =
+        (m.vertices.map (·.1)).filter (fun k => k != a && k != b) ++ [m.unusedId] ∧
+      (joinFinal m a b m.unusedId common v0 v1).cells.map (·.1) = m.cells.map (·.1) ∧
+      (∀ q ∈ (joinFinal m a b m.unusedId common v0 v1).edges, ∃ q0 ∈ m.edges, q.1 = q0.1 ∧
+        q.2.v1 = tau a b m.unusedId q0.2.v1 ∧ q.2.v2 = tau a b m.unusedId q0.2.v2) := by
   obtain ⟨v0, h0⟩ := Option.isSome_iff_exists.mp ha
   obtain ⟨v1, h1⟩ := Option.isSome_iff_exists.mp hb
   have h0' : alGet? a m.vertices = some v0 := h0
@@ -283,7 +284,7 @@ theorem join_consP (m : Mesh) (a b : Id) (mapper : List (Id × Id)) (hC : ConsP 
     { cons := hC, h0 := h0', h1 := h1', hab := hab, hnew := unusedId_fresh m, hc0 := hc0, hc1 := hc1,
       hloop := fun q hq => ⟨fun h => hla ⟨q, hq, Or.inl h⟩, fun h => hlb ⟨q, hq, Or.inl h⟩⟩ }
   have S := H.joinFinal_spec
-  refine ⟨_, join_eq m a b mapper v0 v1 h0 h1 common hcommon, ?_, S.vkeys, ?_, ?_⟩
+  refine ⟨v0, v1, common, h0, h1, hcommon, ?_, S.vkeys, ?_, ?_⟩
   · exact S.consP hC hab (unusedId_fresh m) (List.mem_map.mpr ⟨_, ha_mem, rfl⟩)
       (List.mem_map.mpr ⟨_, hb_mem, rfl⟩) H.common_edge hadj
   · rw [S.cells, List.map_map]; rfl
@@ -291,6 +292,51 @@ theorem join_consP (m : Mesh) (a b : Id) (mapper : List (Id × Id)) (hC : ConsP 
     rw [S.edges] at hq
     obtain ⟨q0, hq0, rfl⟩ := List.mem_map.mp hq
     exact ⟨q0, (List.mem_filter.mp hq0).1, rfl, rfl, rfl⟩
+
+/-- the lookup `vertices[k]`, falling back to `vertices[mapper[k]]` -/
+def resolveOpt (m : Mesh) (mapper : List (Id × Id)) (k : Id) : Option Id :=
+  if (m.vertex? k).isSome then some k
+  else match alGet? k mapper with
+    | some k' => if (m.vertex? k').isSome then some k' else none
+    | none => none
+
+theorem join_eq_gen (m : Mesh) (p : Id × Id) (mapper : List (Id × Id)) (a b : Id) (v0 v1 : Vertex)
+    (hra : resolveOpt m mapper p.1 = some a) (hrb : resolveOpt m mapper p.2 = some b)
+    (h0 : m.vertex? a = some v0) (h1 : m.vertex? b = some v1) (common : Id)
+    (hc : (listInter v0.ownEdges v1.ownEdges).head? = some common) :
+    m.joinTwoVertices p mapper =
+      .ok (joinFinal m a b m.unusedId common v0 v1,
+        (mapper.filter fun q => q.1 != p.1 && q.1 != p.2) ++ [(p.1, m.unusedId), (p.2, m.unusedId)]) := by
+  obtain ⟨p1, p2⟩ := p
+  have key : ∀ k x vx, resolveOpt m mapper k = some x → m.vertex? x = some vx →
+      (m.vertex? k = some vx ∧ x = k) ∨ (m.vertex? k = none ∧ alGet? k mapper = some x) := by
+    intro k x vx hr hx
+    unfold resolveOpt at hr
+    cases hk : m.vertex? k with
+    | some w =>
+      simp only [hk, Option.isSome_some, ↓reduceIte, Option.some.injEq] at hr
+      subst hr
+      rw [hk] at hx
+      exact Or.inl ⟨hx, rfl⟩
+    | none =>
+      simp only [hk, Option.isSome_none, Bool.false_eq_true, ↓reduceIte] at hr
+      cases hm : alGet? k mapper with
+      | none => simp [hm] at hr
+      | some k' =>
+        simp only [hm] at hr
+        split at hr
+        · exact Or.inr ⟨rfl, by rw [Option.some.inj hr]⟩
+        · exact absurd hr (by simp)
+  simp only at hra hrb
+  rcases key p1 a v0 hra h0 with ⟨e1, rfl⟩ | ⟨e1, e2⟩ <;> rcases key p2 b v1 hrb h1 with ⟨f1, rfl⟩ | ⟨f1, f2⟩
+  · simp only [joinTwoVertices, e1, f1, hc, Option.isSome_some, ↓reduceIte]
+    rfl
+  · simp only [joinTwoVertices, e1, f1, f2, h1, hc, Option.isSome_some, Option.isSome_none, Bool.false_eq_true, ↓reduceIte]
+    rfl
+  · simp only [joinTwoVertices, e1, e2, h0, f1, hc, Option.isSome_some, Option.isSome_none, Bool.false_eq_true, ↓reduceIte]
+    rfl
+  · simp only [joinTwoVertices, e1, e2, h0, f1, f2, h1, hc, Option.isSome_some, Option.isSome_none, Bool.false_eq_true, ↓reduceIte]
+    rfl
 
 end Mesh
 end Forsys
